@@ -277,4 +277,60 @@ example : (COp.getitem (.two (.int 1) (.sel (.idx [2, 0])))).Valid exT ∧
   refine ⟨⟨by show (1 : Nat) < 2; decide, ?_⟩, by decide⟩
   intro x hx; simp at hx; rcases hx with rfl | rfl <;> decide
 
+/-! ### histories on one object -/
+
+/-- HISTORIES.  A table object that lives through any sequence of operations and `bt.data = ...`
+    assignments answers every operation with the specification value for the content it holds at
+    that moment — on every backend: no answer depends on what was asked or held before. -/
+theorem histories_backend_independent (b : Backend) (t : Table) (steps : List Step) (hwf : t.WF)
+    (hv : HistValid t steps) :
+    runHist b t steps = Spec.Table.runHist t steps := by
+  induction steps generalizing t with
+  | nil => rfl
+  | cons st rest ih =>
+    cases st with
+    | query op =>
+      simp only [runHist, Spec.Table.runHist]
+      rw [backend_run_eq_spec b op t hwf hv.1, ih t hwf hv.2]
+    | setData rows =>
+      simp only [runHist, Spec.Table.runHist, setData_eq]
+      exact ih _ (Table.ofRows_wf_of_rect hv.1) hv.2
+
+/-- hence the same history gives the same answers on any two backends -/
+theorem histories_agree (b b' : Backend) (t : Table) (steps : List Step) (hwf : t.WF) (hv : HistValid t steps) :
+    runHist b t steps = runHist b' t steps := by
+  rw [histories_backend_independent b t steps hwf hv, histories_backend_independent b' t steps hwf hv]
+
+/-- the same for a context through `ctx.data.data = ...`, `ctx.object_names = ...`,
+    `ctx.attribute_names = ...` -/
+theorem context_histories_backend_independent (K : Ctx) (steps : List CStep) (hwf : K.table.WF)
+    (hobj : K.objNames.length = K.nObjects) (hattr : K.attrNames.length = K.nAttributes)
+    (hv : CHistValid K.table steps) :
+    (K.runHist steps).map obs = Spec.Table.runHistC K.table K.objNames K.attrNames steps := by
+  induction steps generalizing K with
+  | nil => rfl
+  | cons st rest ih =>
+    cases st with
+    | query op =>
+      simp only [Ctx.runHist, Spec.Table.runHistC, List.map_cons]
+      rw [(context_ops_backend_independent K hwf hobj hattr op hv.1).1, ih K hwf hobj hattr hv.2]
+    | setData rows =>
+      simp only [Ctx.runHist, Spec.Table.runHistC, setData_eq]
+      obtain ⟨hrect, hh, hw, hrest⟩ := hv
+      exact ih { K with table := Table.ofRows rows } (Table.ofRows_wf_of_rect hrect)
+        (by simpa [Ctx.nObjects] using hobj.trans hh.symm) (by simpa [Ctx.nAttributes] using hattr.trans hw.symm) hrest
+    | setObjNames ns =>
+      simp only [Ctx.runHist, Spec.Table.runHistC]
+      exact ih { K with objNames := ns } hwf hv.1 hattr hv.2
+    | setAttrNames ns =>
+      simp only [Ctx.runHist, Spec.Table.runHistC]
+      exact ih { K with attrNames := ns } hwf hobj hv.1 hv.2
+
+example : HistValid exT [.query .transpose, .setData [[false, true]], .query .transpose, .query (.getitem (.one (.int 0)))] ∧
+    runHist .lists exT [.query .transpose, .setData [[false, true]], .query .transpose, .query (.getitem (.one (.int 0)))]
+      = [.table ⟨[[true, false], [false, true], [true, true]], 2⟩, .table ⟨[[false], [true]], 1⟩, .bools [false, true]] := by
+  refine ⟨⟨trivial, ?_, trivial, ?_, trivial⟩, by decide⟩
+  · intro r hr; simp at hr; subst hr; rfl
+  · show (0 : Nat) < 1; decide
+
 end Fca.C05
